@@ -17,6 +17,7 @@ Verdict(r) ==
     IN IF r.raised # "" THEN <<"raised">>
        ELSE Fails(<< <<"readable", Readable(r.after.orig) /\ Readable(r.after.der)>>,
                      <<"copy-equals-original", isCopy => (ObjContent(r.before.der) = ObjContent(r.before.orig) /\ r.equalsApi /\ r.attrsEqual)>>,
+                     <<"derivation-leaves-original-unchanged", r.preDerive # <<>> => ObjContent(r.preDerive) = ObjContent(r.before.orig)>>,
                      <<"untouched-side-unchanged", Readable(watchedAfter) => ObjContent(watchedAfter) = ObjContent(watchedBefore)>>,
                      <<"untouched-side-views-agree", Readable(watchedAfter) => ViewsAgree(watchedAfter)>>,
                      <<"operated-side-views-agree", LET x == IF r.side = "derived" THEN r.after.der ELSE r.after.orig IN
